@@ -50,6 +50,10 @@ def roundtrip(ctx, T, cfgv):
 def run(tier):
     ck = Check('C08', tier, 'proof', 'abstract interpretation of MIR of decode followed by encode; exact rational product of the extracted f32 matrices and scales; a-priori rounding bounds; exact integer-wrapper table')
     builds = ('K1',) if tier == 'quick' else ('K1', 'K2')
+    analyse(ck, tier, builds)
+    return ck.finish()
+
+def analyse(ck, tier, builds, prefix=''):
     ctxs = {b: Ctx(b) for b in builds}
     worst = Fr(0)
     for b, m, full, bd, T in configs(tier, builds):
@@ -149,4 +153,4 @@ def run(tier):
             ck.ob(base, 'UNDECIDED', f"analysis lost: {ex}")
     ck.note('worst_bound_codes', float(worst))
     ck.floor('roundtrips_interpreted', 56 if tier == 'quick' else 280)
-    return ck.finish()
+    return None
